@@ -136,7 +136,7 @@ Section Unfold.
     end.
   Proof. destruct v; intros H; try discriminate; reflexivity. Qed.
   Lemma cv_named v n : is_var v = false ->
-    K.check_value S vars v (TNamed n) = K.check_named S (K.check_value S vars) v (TNamed n) n.
+    K.check_value S vars v (TNamed n) = K.check_named S vars (K.check_value S vars) v (TNamed n) n.
   Proof. destruct v; intros H; try discriminate; reflexivity. Qed.
 End Unfold.
 
@@ -148,6 +148,16 @@ Proof.
   unfold ty_rel in H. destruct a as [x|a|q a], b as [y|b|r b]; cbn [erase_ty] in H; try discriminate; try reflexivity.
   injection H as H. now rewrite (ty_rel_compat (vd_type vd) a b H).
 Qed.
+
+(** expected_type_of_location *)
+Lemma loc_type_rel a b v : iv_rel a b -> ty_rel (K.loc_type a v) (K.loc_type b v).
+Proof.
+  intros H. destruct (iv_rel_facts a b H) as [_ [Ht Hd]]. unfold K.loc_type. unfold ty_rel in *.
+  destruct (iv_type a) as [x|ta|q ta], (iv_type b) as [y|tb|r tb]; cbn [erase_ty] in Ht; try discriminate; try exact Ht.
+  destruct v; try exact Ht. destruct (iv_default a), (iv_default b); cbn in Hd; try discriminate; [|exact Ht]. now injection Ht.
+Qed.
+Lemma loc_type_unwrapped a v : iname (ty_unwrapped (K.loc_type a v)) = iname (ty_unwrapped (iv_type a)).
+Proof. unfold K.loc_type. destruct (iv_type a); try reflexivity. destruct v; try reflexivity. destruct (iv_default a); reflexivity. Qed.
 
 (* ------------------------------------------------------------------------------------------ *)
 (** * the simulation *)
@@ -171,13 +181,26 @@ Section Sim.
   Lemma ty_ok_inner_nn t : ty_ok (TNonNull t) = ty_ok t. Proof. reflexivity. Qed.
   Lemma ty_ok_inner_list p t : ty_ok (TList p t) = ty_ok t. Proof. reflexivity. Qed.
 
-  (** find_val with related continuation *)
-  Lemma find_val_rel (f1 f2 : value -> list K.err) name fs :
-    Forall (fun kv => msgs (f1 (snd kv)) = msgs (f2 (snd kv))) fs ->
-    option_map msgs (K.find_val f1 name fs) = option_map msgs (K.find_val f2 name fs).
+  (** the nested values of a literal satisfy the simulation (what the induction over values provides) *)
+  Definition cv_rel (cv1 cv2 : value -> ty -> list K.err) (v : value) : Prop :=
+    forall t1 t2, ty_rel t1 t2 -> ty_ok t1 = true -> msgs (cv1 v t1) = msgs (cv2 v t2).
+
+  Lemma ty_ok_loc a v : ty_ok (iv_type a) = true -> ty_ok (K.loc_type a v) = true.
+  Proof. unfold ty_ok. now rewrite loc_type_unwrapped. Qed.
+
+  (** filter_vals with related continuations *)
+  Lemma filter_vals_rel (cv1 cv2 : value -> ty -> list K.err) a b name fs :
+    iv_rel a b -> ty_ok (iv_type a) = true -> Forall (fun kv => cv_rel cv1 cv2 (snd kv)) fs ->
+    map msgs (K.filter_vals (fun fv => cv1 fv (K.loc_type a fv)) name fs) = map msgs (K.filter_vals (fun fv => cv2 fv (K.loc_type b fv)) name fs).
   Proof.
-    induction fs as [|[key v] r IH]; intros H; cbn [K.find_val option_map]; [reflexivity|].
-    inversion H as [|? ? Hv Hr]; subst. cbn [snd] in Hv. destruct (str_eqb name (iname key)); cbn [option_map]; [now rewrite Hv|auto].
+    intros Hab Hok H. induction H as [|[key v] r Hv Hr IH]; cbn [K.filter_vals map]; [reflexivity|].
+    destruct (str_eqb name (iname key)); [|exact IH]. cbn [map snd] in *. f_equal; [|exact IH].
+    apply Hv; [now apply loc_type_rel|now apply ty_ok_loc].
+  Qed.
+  Lemma msgs_concat l1 l2 : map msgs l1 = map msgs l2 -> msgs (concat l1) = msgs (concat l2) /\ length l1 = length l2.
+  Proof.
+    revert l2. induction l1 as [|x r IH]; intros [|y r2] H; cbn [map] in H; try discriminate; [split; reflexivity|].
+    injection H as Hx Hr. destruct (IH _ Hr) as [Hc Hl]. split; [cbn [concat]; now rewrite !map_app, Hx, Hc|cbn [length]; now rewrite Hl].
   Qed.
 
   Definition io_rel (a b : K.iostate) : Prop :=
@@ -186,7 +209,7 @@ Section Sim.
   Lemma io_fold_rel (cv1 cv2 : value -> ty -> list K.err) fs fields1 fields2 :
     Forall2 iv_rel fields1 fields2 ->
     inputs_ok fields1 = true ->
-    (forall t1 t2, ty_rel t1 t2 -> ty_ok t1 = true -> Forall (fun kv => msgs (cv1 (snd kv) t1) = msgs (cv2 (snd kv) t2)) fs) ->
+    Forall (fun kv => cv_rel cv1 cv2 (snd kv)) fs ->
     forall st1 st2, io_rel st1 st2 ->
     io_rel (fold_left (K.io_step cv1 fs) fields1 st1) (fold_left (K.io_step cv2 fs) fields2 st2).
   Proof.
@@ -195,20 +218,21 @@ Section Sim.
     apply IH; [assumption|assumption|].
     destruct (iv_rel_facts a b Hab) as [Hn [Ht Hd]]. destruct Hst as [He [Hr Hs]].
     unfold K.io_step. rewrite <- Hn.
-    pose proof (find_val_rel (fun fv => cv1 fv (iv_type a)) (fun fv => cv2 fv (iv_type b)) (iname (iv_name a)) fs (Hcv _ _ Ht Ha)) as Hf.
-    destruct (K.find_val (fun fv => cv1 fv (iv_type a)) (iname (iv_name a)) fs) as [e1|],
-             (K.find_val (fun fv => cv2 fv (iv_type b)) (iname (iv_name a)) fs) as [e2|]; cbn [option_map] in Hf; try discriminate.
-    - injection Hf as Hf. repeat split; cbn [K.io_errs K.io_res K.io_seen]; [now rewrite !map_app, He, Hf|assumption|now rewrite Hs].
+    pose proof (filter_vals_rel cv1 cv2 a b (iname (iv_name a)) fs Hab Ha Hcv) as Hf.
+    destruct (K.filter_vals (fun fv => cv1 fv (K.loc_type a fv)) (iname (iv_name a)) fs) as [|x1 r1],
+             (K.filter_vals (fun fv => cv2 fv (K.loc_type b fv)) (iname (iv_name a)) fs) as [|x2 r2]; cbn [map] in Hf; try discriminate.
     - rewrite (ty_rel_nonnull _ _ Ht).
       replace (match iv_default a with None => true | Some _ => false end) with (match iv_default b with None => true | Some _ => false end)
         by (destruct (iv_default a), (iv_default b); cbn in Hd; congruence).
       destruct (K.ty_is_nonnull (iv_type b) && match iv_default b with None => true | Some _ => false end);
         repeat split; cbn [K.io_errs K.io_res K.io_seen]; assumption.
+    - destruct (msgs_concat (x1 :: r1) (x2 :: r2) Hf) as [Hc Hl'].
+      repeat split; cbn [K.io_errs K.io_res K.io_seen]; [now rewrite !map_app, He, Hc|assumption|now rewrite Hs, Hl'].
   Qed.
 
   Lemma input_object_check_rel cv1 cv2 mism1 mism2 fields1 fields2 fs :
     Forall2 iv_rel fields1 fields2 -> inputs_ok fields1 = true ->
-    (forall t1 t2, ty_rel t1 t2 -> ty_ok t1 = true -> Forall (fun kv => msgs (cv1 (snd kv) t1) = msgs (cv2 (snd kv) t2)) fs) ->
+    Forall (fun kv => cv_rel cv1 cv2 (snd kv)) fs ->
     (forall i1 i2, msgs (mism1 i1) = msgs (mism2 i2)) ->
     msgs (K.input_object_check cv1 mism1 fields1 fs) = msgs (K.input_object_check cv2 mism2 fields2 fs).
   Proof.
@@ -250,9 +274,8 @@ Section Sim.
   (** check_named, given the simulation for the values nested in [v] *)
   Lemma check_named_rel (cv1 cv2 : value -> ty -> list K.err) v n1 n2 :
     iname n1 = iname n2 -> P (iname n1) = true ->
-    (forall fs p, v = VObject p fs ->
-       forall t1 t2, ty_rel t1 t2 -> ty_ok t1 = true -> Forall (fun kv => msgs (cv1 (snd kv) t1) = msgs (cv2 (snd kv) t2)) fs) ->
-    msgs (K.check_named S1 cv1 v (TNamed n1) n1) = msgs (K.check_named S2 cv2 v (TNamed n2) n2).
+    (forall fs p, v = VObject p fs -> Forall (fun kv => cv_rel cv1 cv2 (snd kv)) fs) ->
+    msgs (K.check_named S1 vars cv1 v (TNamed n1) n1) = msgs (K.check_named S2 vars cv2 v (TNamed n2) n2).
   Proof.
     intros Hn Hp Hcv. unfold K.check_named. pose proof (Hty _ Hp) as Hr. rewrite <- Hn.
     destruct (K.get_type S1 (iname n1)) as [td1|] eqn:E1, (K.get_type S2 (iname n1)) as [td2|]; cbn [orel] in Hr; try contradiction; [|reflexivity].
@@ -261,7 +284,7 @@ Section Sim.
     destruct td1 as [d1 p1 nm1 ds1 kw1|d1 p1 nm1 i1 ds1 f1 kw1|d1 p1 nm1 i1 ds1 f1 kw1|d1 p1 nm1 ds1 m1 kw1|d1 p1 nm1 ds1 v1 kw1|d1 p1 nm1 ds1 f1 kw1],
              td2 as [d2 p2 nm2 ds2 kw2|d2 p2 nm2 i2 ds2 f2 kw2|d2 p2 nm2 i2 ds2 f2 kw2|d2 p2 nm2 ds2 m2 kw2|d2 p2 nm2 ds2 v2 kw2|d2 p2 nm2 ds2 f2 kw2];
       try contradiction; try reflexivity.
-    - rewrite Hk. destruct (K.scalar_accepts (iname nm2) v); reflexivity.
+    - rewrite Hk. destruct (K.is_builtin_scalar (iname nm2)); [|reflexivity]. destruct (K.scalar_accepts (iname nm2) v); reflexivity.
     - destruct Hk as [Hen Hvals]. destruct v; try reflexivity.
       rewrite (forallb_names (fun x => negb (str_eqb x v)) (fun e => iname (ev_name e)) v1 v2 Hvals), Hen.
       destruct (forallb _ v2); reflexivity.
@@ -275,7 +298,7 @@ Section Sim.
   Proof.
     assert (Hnonvar : forall v, is_var v = false ->
               (forall n1 n2, iname n1 = iname n2 -> P (iname n1) = true ->
-                 msgs (K.check_named S1 (K.check_value S1 vars) v (TNamed n1) n1) = msgs (K.check_named S2 (K.check_value S2 vars) v (TNamed n2) n2)) ->
+                 msgs (K.check_named S1 vars (K.check_value S1 vars) v (TNamed n1) n1) = msgs (K.check_named S2 vars (K.check_value S2 vars) v (TNamed n2) n2)) ->
               (forall p vs, v = VList p vs -> forall t1 t2, ty_rel t1 t2 -> ty_ok t1 = true ->
                  Forall (fun e => msgs (K.check_value S1 vars e t1) = msgs (K.check_value S2 vars e t2)) vs) ->
               forall t1 t2, ty_rel t1 t2 -> ty_ok t1 = true ->
@@ -303,8 +326,7 @@ Section Sim.
         rewrite Forall_forall in IHvs. now apply IHvs.
     - apply Hnonvar; [reflexivity| |discriminate].
       intros n1 n2 Hn Hp. apply check_named_rel; try assumption.
-      intros fs' p' E t1 t2 Hrel Hok. injection E as _ <-. apply Forall_forall. intros kv Hkv.
-      rewrite Forall_forall in IHfs. now apply IHfs.
+      intros fs' p' E. injection E as _ <-. exact IHfs.
   Qed.
 
   (** check_arguments *)
@@ -318,12 +340,14 @@ Section Sim.
     intros HF. induction HF as [|a b l1 l2 Hab Hl IH]; intros Hok st1 st2 Hst; cbn [fold_left]; [assumption|].
     cbn [inputs_ok forallb] in Hok. apply Bool.andb_true_iff in Hok as [Ha Hok]. apply IH; [assumption|].
     destruct (iv_rel_facts a b Hab) as [Hn [Ht Hd]]. destruct Hst as [He Hs]. unfold K.arg_step. rewrite <- Hn.
-    destruct (find (fun kv => str_eqb (iname (iv_name a)) (iname (fst kv))) args) as [kv|].
-    - split; cbn [fst snd]; [|now rewrite Hs]. rewrite !map_app, He. f_equal. now apply check_value_rel.
+    destruct (filter (fun kv => str_eqb (iname (iv_name a)) (iname (fst kv))) args) as [|kv ms].
     - rewrite (ty_rel_nonnull _ _ Ht).
       replace (match iv_default a with Some _ => true | None => false end) with (match iv_default b with Some _ => true | None => false end) by (symmetry; exact Hd).
       destruct (if negb (K.ty_is_nonnull (iv_type b)) then true else match iv_default b with Some _ => true | None => false end); [split; assumption|].
       split; cbn [fst snd]; [|assumption]. now rewrite !map_app, He.
+    - split; cbn [fst snd]; [|now rewrite Hs]. rewrite !map_app, He. f_equal.
+      generalize (kv :: ms). intros l. induction l as [|x r IHl]; cbn [flat_map]; [reflexivity|].
+      rewrite !map_app, IHl. f_equal. apply check_value_rel; [now apply loc_type_rel|now apply ty_ok_loc].
   Qed.
 
   Lemma names_of_rel l1 l2 : Forall2 iv_rel l1 l2 -> map (fun i => iname (iv_name i)) l1 = map (fun i => iname (iv_name i)) l2.
